@@ -1,11 +1,14 @@
 (* C17 - each configuration switch silences exactly the diagnostics it names.
-   Only statements closed by `exact` (and vm_compute witnesses of the *_refuted theorems) + Print Assumptions.
+   Only statements closed by `exact` (and vm_compute witnesses / regression examples) + Print Assumptions.
 
    Vocabulary (Model/Config.v, Spec/ConfigSpec.v):
-     session fixed re_ok j c cs   the server's configuration state after initialize (luahelper.json j if present, client
-                                  options c) and the settings changes cs; Fault Regexp = the process dies in
-                                  regexp.MustCompile; fixed = false is the code as it is
-     shown g root files           what the client sees: filter (visible g root) (raw (analysed files))
+     fx : fixes                   which fix: commits are in the code; `deployed` = all of them = the code now in /repo
+                                  (C17_code_is_deployed_variant), `code_round1` = the code before the four repairs of
+                                  round 2, `code_original` = the code before any repair
+     session fx re_ok j c lr cs   the server's configuration state after initialize (luahelper.json j if present, client
+                                  options c, LocalRun lr) and the settings changes cs; Fault Regexp = the process dies in
+                                  regexp.MustCompile
+     shown fx .. g root files     what the client sees: filter (visible g root) (raw (analysed files))
      spec_shown i root files      the documented law for the intent i of the session
      re_ok / re_match / raw       the Go regexp engine and the everything-enabled analysis: arbitrary (universally
                                   quantified) in every theorem *)
@@ -15,16 +18,37 @@ From LH Require Generated.GenFlags.
 Import ListNotations.
 Local Open Scope N_scope.
 
-(* The full statement: for every configuration, by every route, the server survives and shows exactly what the
-   intent allows.  It is FALSE on the code as it is (six refutations below); the guarded theorems say exactly where
-   it holds. *)
-Definition C17_full : Prop :=
+(* The full statement, for one variant of the code: for every configuration, by every route, the server survives and
+   shows exactly what the intent allows (the only premise about the analysis: its diagnostics have one of the existing
+   types 1..29).  Proved for the deployed code (section 0); FALSE for the code before the repairs (section 5). *)
+Definition C17_full_for (fx : fixes) : Prop :=
   forall (re_ok : path -> bool) (re_match : path -> path -> bool) (raw : list path -> list diag)
          root files j c local_run cs,
     client_wf c = true -> forallb client_wf cs = true ->
-    forallb type_ok (raw files) = true ->
-    exists s, session false re_ok j c local_run cs = Ok s
-      /\ shown re_ok re_match raw (s_g s) root files = spec_shown re_ok re_match raw (session_intent j c cs) root files.
+    forallb type_ok (raw (filter (spec_handled re_ok re_match (session_intent j c cs)) files)) = true ->
+    exists s, session fx re_ok j c local_run cs = Ok s
+      /\ shown fx re_ok re_match raw (s_g s) root files = spec_shown re_ok re_match raw (session_intent j c cs) root files.
+
+(* ---- 0. the deployed code ---- *)
+
+Theorem C17_full : C17_full_for deployed.
+Proof. exact full_deployed. Qed.
+Print Assumptions C17_full.
+
+(* ... and `deployed` IS the code in /repo: every component of fixes_now is derived by the translator from the Go
+   sources on every run (Tie/TieConfig.v: no regexp.MustCompile on user text + IgnoreVarMap allocated at start-up; the
+   errTypeList of IsSpecialCheck, as a list; the table of IsGlobalIgnoreErrType / IsIgnoreErrorFile uses inside
+   check/analysis has the repaired shape; handleNotJSONCheckFlag writes OpenErrorTypeMap; ReadConfig reads
+   IgnoreFileErrTypesMap before assigning).  Reverting any of the six fix: commits breaks this proof (Tie/TieConfig.v
+   itself compiles for any state of the code, so that the correspondence legs still run - with the variant of the model
+   that describes the changed code - and look for a failing input). *)
+Theorem C17_code_is_deployed_variant : fixes_now = deployed.
+Proof. vm_compute. reflexivity. Qed.
+Print Assumptions C17_code_is_deployed_variant.
+
+Theorem C17_code_is_repaired_variant : fx_regexp fixes_now = true /\ gate_covers fixes_now = true.
+Proof. vm_compute. split; reflexivity. Qed.
+Print Assumptions C17_code_is_repaired_variant.
 
 (* ---- 1. the positional flag lists (over the GENERATED lists: re-checked against the code on every run) ---- *)
 
@@ -38,193 +62,274 @@ Print Assumptions C17_flag_type_bijection.
 
 (* ---- 2. the filter law ---- *)
 
-(* for every session (any route, any history), any regexp engine, any analysis: if every diagnostic of the
-   everything-enabled run passes the guard (it is excluded anyway, or neither the five-flag gate nor a coupled type
-   nor the white list stands in its way), the client sees exactly the filtered everything-enabled run *)
+(* the repaired code (the four repairs of round 2; with or without the regexp repair; gate_covers fx = the gate list of
+   IsSpecialCheck contains every type the cross-file passes emit): for every session that does not fault (any route,
+   any history), any regexp engine, any analysis, the client sees exactly the filtered everything-enabled run.
+   No guard on the configuration is left (before: special_gate_ok / diag_guard / json_wf). *)
 Theorem C17_filter_law :
-  forall fixed re_ok re_match raw root files j c local_run cs s,
-    json_wf j = true -> client_wf c = true -> forallb client_wf cs = true ->
-    session fixed re_ok j c local_run cs = Ok s ->
-    forallb (diag_guard re_ok re_match (s_g s) (session_intent j c cs) root)
-            (raw (filter (is_handled re_ok re_match (s_g s)) files)) = true ->
-    shown re_ok re_match raw (s_g s) root files
+  forall fx re_ok re_match raw root files j c local_run cs s,
+    gate_covers fx = true -> fx_coupled fx = true -> fx_dead fx = true -> fx_dup fx = true ->
+    client_wf c = true -> forallb client_wf cs = true ->
+    session fx re_ok j c local_run cs = Ok s ->
+    forallb type_ok (raw (filter (spec_handled re_ok re_match (session_intent j c cs)) files)) = true ->
+    shown fx re_ok re_match raw (s_g s) root files
       = spec_shown re_ok re_match raw (session_intent j c cs) root files.
 Proof. exact filter_law. Qed.
 Print Assumptions C17_filter_law.
 
-(* the form of DESIGN.md: special_gate_ok cfg -> shown cfg = filter (not excluded) (all-on run), for workspaces whose
-   diagnostics are of the plain types (not 17/24, not white-listed 22..28, no import reference) *)
+(* one diagnostic at a time: visible = not excluded by the intent, nothing else *)
+Theorem C17_visible_iff_not_excluded :
+  forall fx re_ok re_match root j c local_run cs s d,
+    gate_covers fx = true -> fx_coupled fx = true -> fx_dead fx = true -> fx_dup fx = true ->
+    client_wf c = true -> forallb client_wf cs = true ->
+    session fx re_ok j c local_run cs = Ok s -> type_ok d = true ->
+    visible fx re_ok re_match (s_g s) root d = negb (spec_excluded re_ok re_match (session_intent j c cs) root d).
+Proof. exact session_visible_exact. Qed.
+Print Assumptions C17_visible_iff_not_excluded.
+
+(* the classes of the four repaired defects are empty on the repaired code (the correspondence leg computes them with
+   the same extracted predicates: an instance on the deployed code is an unlisted violation) *)
+Theorem C17_classes_empty :
+  forall fx re_ok re_match root j c local_run cs s d,
+    gate_covers fx = true -> fx_coupled fx = true -> fx_dead fx = true -> fx_dup fx = true ->
+    client_wf c = true -> forallb client_wf cs = true ->
+    session fx re_ok j c local_run cs = Ok s -> type_ok d = true ->
+    cls_special_gate fx re_ok re_match (s_g s) (session_intent j c cs) root d = false
+    /\ cls_coupled fx re_ok re_match (s_g s) (session_intent j c cs) root d = false
+    /\ cls_dead_flag re_ok re_match (s_g s) (session_intent j c cs) root d = false
+    /\ json_wf fx j = true.
+Proof. exact classes_empty. Qed.
+Print Assumptions C17_classes_empty.
+
+(* EVERY variant of the code (fx arbitrary: also the code before the repairs): if every diagnostic of the
+   everything-enabled run passes the guard (it is excluded anyway, or neither the five-flag gate nor a coupled type nor
+   the white list stands in its way), the client sees exactly the filtered everything-enabled run *)
+Theorem C17_filter_law_guarded :
+  forall fx re_ok re_match raw root files j c local_run cs s,
+    json_wf fx j = true -> client_wf c = true -> forallb client_wf cs = true ->
+    session fx re_ok j c local_run cs = Ok s ->
+    forallb (diag_guard fx re_ok re_match (s_g s) (session_intent j c cs) root)
+            (raw (filter (is_handled re_ok re_match (s_g s)) files)) = true ->
+    shown fx re_ok re_match raw (s_g s) root files
+      = spec_shown re_ok re_match raw (session_intent j c cs) root files.
+Proof. exact filter_law_guarded. Qed.
+Print Assumptions C17_filter_law_guarded.
+
+(* the form of DESIGN.md for the unrepaired code: special_gate_ok cfg -> shown cfg = filter (not excluded) (all-on run),
+   for workspaces whose diagnostics are of the plain types (not 17/24, not white-listed 22..28, no import reference) *)
 Theorem C17_filter_law_plain :
-  forall fixed re_ok re_match raw root files j c local_run cs s,
-    json_wf j = true -> client_wf c = true -> forallb client_wf cs = true ->
-    session fixed re_ok j c local_run cs = Ok s ->
-    special_gate_ok (s_g s) = true ->
+  forall fx re_ok re_match raw root files j c local_run cs s,
+    json_wf fx j = true -> client_wf c = true -> forallb client_wf cs = true ->
+    session fx re_ok j c local_run cs = Ok s ->
+    special_gate_ok fx (s_g s) = true ->
     forallb plain_diag (raw (filter (is_handled re_ok re_match (s_g s)) files)) = true ->
-    shown re_ok re_match raw (s_g s) root files
+    shown fx re_ok re_match raw (s_g s) root files
       = spec_shown re_ok re_match raw (session_intent j c cs) root files.
 Proof. exact filter_law_plain. Qed.
 Print Assumptions C17_filter_law_plain.
 
-(* one diagnostic at a time, with the exact residue: visible = allowed by the intent /\ gate /\ prerequisites /\ white list *)
+(* every variant, one diagnostic at a time, with the exact residue:
+   visible = allowed by the intent /\ gate /\ prerequisites /\ white list *)
 Theorem C17_visible_exact :
-  forall fixed re_ok re_match j c local_run cs s,
-    json_wf j = true -> client_wf c = true -> forallb client_wf cs = true ->
-    session fixed re_ok j c local_run cs = Ok s ->
-    realises re_ok re_match (s_g s) (session_intent j c cs).
+  forall fx re_ok re_match j c local_run cs s,
+    json_wf fx j = true -> client_wf c = true -> forallb client_wf cs = true ->
+    session fx re_ok j c local_run cs = Ok s ->
+    realises fx re_ok re_match (s_g s) (session_intent j c cs).
 Proof. exact session_realises. Qed.
 Print Assumptions C17_visible_exact.
 
-(* without any guard: the code never SHOWS a diagnostic the configuration excludes (it only hides too much) *)
+(* every variant: the code never SHOWS a diagnostic the configuration excludes (it only hid too much) *)
 Theorem C17_never_shows_excluded :
-  forall fixed re_ok re_match root j c local_run cs s d,
-    json_wf j = true -> client_wf c = true -> forallb client_wf cs = true ->
-    session fixed re_ok j c local_run cs = Ok s -> type_ok d = true ->
-    visible re_ok re_match (s_g s) root d = true ->
+  forall fx re_ok re_match root j c local_run cs s d,
+    json_wf fx j = true -> client_wf c = true -> forallb client_wf cs = true ->
+    session fx re_ok j c local_run cs = Ok s -> type_ok d = true ->
+    visible fx re_ok re_match (s_g s) root d = true ->
     spec_excluded re_ok re_match (session_intent j c cs) root d = false.
 Proof. exact never_shows_excluded. Qed.
 Print Assumptions C17_never_shows_excluded.
 
-(* ---- 3. the three routes ---- *)
+(* ---- 3. the three routes (every variant; to_json lists the switched-on types as OpenErrorTypes once the client
+   switches reach the white list) ---- *)
 
 Theorem C17_same_by_all_routes :
-  forall fixed re_ok re_match c c0 csync cmid cany cs_any l1 l2 l3 s1 s2 s3,
+  forall fx re_ok re_match c c0 csync cmid cany cs_any l1 l2 l3 s1 s2 s3,
     client_wf c = true -> client_wf c0 = true -> client_wf csync = true -> forallb client_wf cmid = true ->
-    session fixed re_ok None c l1 [] = Ok s1 ->                           (* initializationOptions *)
-    session fixed re_ok None c0 l2 (csync :: cmid ++ [c]) = Ok s2 ->      (* later settings change, any history *)
-    session fixed re_ok (Some (to_json c)) cany l3 cs_any = Ok s3 ->      (* luahelper.json *)
-    obs_eq re_ok re_match (s_g s1) (s_g s2) /\ obs_eq re_ok re_match (s_g s1) (s_g s3).
+    session fx re_ok None c l1 [] = Ok s1 ->                           (* initializationOptions *)
+    session fx re_ok None c0 l2 (csync :: cmid ++ [c]) = Ok s2 ->      (* later settings change, any history *)
+    session fx re_ok (Some (to_json fx c)) cany l3 cs_any = Ok s3 ->   (* luahelper.json *)
+    obs_eq fx re_ok re_match (s_g s1) (s_g s2) /\ obs_eq fx re_ok re_match (s_g s1) (s_g s3).
 Proof. exact same_by_all_routes. Qed.
 Print Assumptions C17_same_by_all_routes.
 
 Theorem C17_same_routes_same_diagnostics :
-  forall re_ok re_match raw g1 g2 root files,
-    obs_eq re_ok re_match g1 g2 -> shown re_ok re_match raw g1 root files = shown re_ok re_match raw g2 root files.
+  forall fx re_ok re_match raw g1 g2 root files,
+    obs_eq fx re_ok re_match g1 g2 -> shown fx re_ok re_match raw g1 root files = shown fx re_ok re_match raw g2 root files.
 Proof. exact obs_eq_shown. Qed.
 Print Assumptions C17_same_routes_same_diagnostics.
 
 Theorem C17_json_ignores_client :
-  forall fixed re_ok jc c c' l l' cs cs' s s',
-    session fixed re_ok (Some jc) c l cs = Ok s -> session fixed re_ok (Some jc) c' l' cs' = Ok s' -> s_g s = s_g s'.
+  forall fx re_ok jc c c' l l' cs cs' s s',
+    session fx re_ok (Some jc) c l cs = Ok s -> session fx re_ok (Some jc) c' l' cs' = Ok s' -> s_g s = s_g s'.
 Proof. exact json_ignores_client. Qed.
 Print Assumptions C17_json_ignores_client.
 
 (* ---- 4. malformed patterns ---- *)
 
-(* the code before the repair died iff some IgnoreFileOrDirError pattern did not compile *)
+(* the code before the regexp repair died iff some IgnoreFileOrDirError pattern did not compile *)
 Theorem C17_init_faults_iff :
-  forall re_ok c local_run,
-    init false re_ok None c local_run = Fault Regexp <-> forallb re_ok (c_ignore_err c) = false.
+  forall re_ok fx c local_run,
+    fx_regexp fx = false ->
+    (init fx re_ok None c local_run = Fault Regexp <-> forallb re_ok (c_ignore_err c) = false).
 Proof. exact init_faults_iff. Qed.
 Print Assumptions C17_init_faults_iff.
 
 Theorem C17_no_fault_if_patterns_ok :
-  forall re_ok fixed j c local_run cs,
-    session_patterns_ok re_ok fixed j c cs = true -> fixed || local_ok j c local_run = true ->
-    exists s, session fixed re_ok j c local_run cs = Ok s.
+  forall re_ok fx j c local_run cs,
+    session_patterns_ok re_ok fx j c cs = true -> fx_regexp fx || local_ok j c local_run = true ->
+    exists s, session fx re_ok j c local_run cs = Ok s.
 Proof. exact session_no_fault. Qed.
 Print Assumptions C17_no_fault_if_patterns_ok.
 
-(* the repaired code now in /repo (fix: commits 0afb56d regexp.Compile - a malformed pattern counts as literal text only -
+(* the repaired code (fix: commits 0afb56d regexp.Compile - a malformed pattern counts as literal text only -
    and c65defa IgnoreVarMap allocated at start-up) never faults, whatever the settings, by any route *)
 Theorem C17_fixed_never_faults :
-  forall re_ok j c local_run cs, exists s, session true re_ok j c local_run cs = Ok s.
+  forall re_ok fx j c local_run cs, fx_regexp fx = true -> exists s, session fx re_ok j c local_run cs = Ok s.
 Proof. exact fixed_never_faults. Qed.
 Print Assumptions C17_fixed_never_faults.
-
-(* ... and the repaired variant IS the code in /repo: derived by the translator from global_conf.go on every run *)
-Theorem C17_code_is_repaired_variant : fixed_regexp_now = true.
-Proof. exact tie_repaired_now. Qed.
-Print Assumptions C17_code_is_repaired_variant.
 
 (* before the repair: initializationOptions {LocalRun: true, AllEnable: false}: handleNotJSONCheckFlag returned before it
    allocated IgnoreVarMap, InsertIngoreSystemModule then wrote into the nil map: initialize died *)
 Theorem C17_local_master_off_faulted :
-  forall re_ok c fl,
-    c_flags c = false :: fl -> compile_all false re_ok (c_ignore_err c) = true ->
-    init false re_ok None c true = Fault NilDeref.
+  forall re_ok fx c fl,
+    fx_regexp fx = false ->
+    c_flags c = false :: fl -> compile_all fx re_ok (c_ignore_err c) = true ->
+    init fx re_ok None c true = Fault NilDeref.
 Proof. exact local_master_off_faults. Qed.
 Print Assumptions C17_local_master_off_faulted.
 
-(* ---- 5. refutations of C17_full on the faithful model (each replayed on the real server: known_findings/C17.json) ---- *)
+(* ---- 5. the six repaired defects: the old witness (each was replayed on the real server, known_findings/C17.json,
+   and stays in corpus/c17.filter.txt), refuted on the code before its repair and positive on the deployed code ---- *)
 
 (* client option IgnoreFileOrDirError ["("]: initialize died before the repair; the repaired code survives *)
 Theorem C17_bad_regex_repaired :
   client_wf w_bad_regex = true
-  /\ session false re_no_paren None w_bad_regex false [] = Fault Regexp
-  /\ is_ok (session true re_no_paren None w_bad_regex false []) = true.
+  /\ session code_original re_no_paren None w_bad_regex false [] = Fault Regexp
+  /\ is_ok (session deployed re_no_paren None w_bad_regex false []) = true.
 Proof. vm_compute. repeat split. Qed.
 Print Assumptions C17_bad_regex_repaired.
-
-(* switches 2, 3, 10, 11, 12 off and 9 on: a type-9 diagnostic, not excluded by the intent, is not shown *)
-Theorem C17_special_gate_refuted :
-  match session false re_all None w_gate false [] with
-  | Ok s =>
-      client_wf w_gate = true /\ nth 9 (c_flags w_gate) false = true
-      /\ spec_excluded re_all re_none (session_intent None w_gate []) [] (mk_diag a_lua 9) = false
-      /\ visible re_all re_none (s_g s) [] (mk_diag a_lua 9) = false
-      /\ cls_special_gate re_all re_none (s_g s) (session_intent None w_gate []) [] (mk_diag a_lua 9) = true
-  | _ => False
-  end.
-Proof. vm_compute. repeat split. Qed.
-Print Assumptions C17_special_gate_refuted.
-
-(* only switch 4 off: the type-17 diagnostic disappears as well *)
-Theorem C17_coupled_type_refuted :
-  match session false re_all None w_coupled false [] with
-  | Ok s =>
-      nth 17 (c_flags w_coupled) false = true
-      /\ spec_excluded re_all re_none (session_intent None w_coupled []) [] (mk_diag a_lua 17) = false
-      /\ visible re_all re_none (s_g s) [] (mk_diag a_lua 17) = false
-      /\ cls_coupled re_all re_none (s_g s) (session_intent None w_coupled []) [] (mk_diag a_lua 17) = true
-  | _ => False
-  end.
-Proof. vm_compute. repeat split. Qed.
-Print Assumptions C17_coupled_type_refuted.
-
-(* every client switch on: a type-22 diagnostic is still not shown (white list only fed by luahelper.json) *)
-Theorem C17_dead_flag_refuted :
-  match session false re_all None w_all_on false [] with
-  | Ok s =>
-      nth 22 (c_flags w_all_on) false = true
-      /\ spec_excluded re_all re_none (session_intent None w_all_on []) [] (mk_diag a_lua 22) = false
-      /\ visible re_all re_none (s_g s) [] (mk_diag a_lua 22) = false
-      /\ cls_dead_flag re_all re_none (s_g s) (session_intent None w_all_on []) [] (mk_diag a_lua 22) = true
-  | _ => False
-  end.
-Proof. vm_compute. repeat split. Qed.
-Print Assumptions C17_dead_flag_refuted.
-
-(* two IgnoreFileErrTypes entries for the same file: the first one is lost, its type is shown *)
-Theorem C17_dup_file_rule_refuted :
-  match session false re_all (Some w_dup_rule) w_all_on false [] with
-  | Ok s =>
-      json_wf (Some w_dup_rule) = false
-      /\ spec_excluded re_all re_none (session_intent (Some w_dup_rule) w_all_on []) [] (mk_diag a_lua 4) = true
-      /\ visible re_all re_none (s_g s) [] (mk_diag a_lua 4) = true
-  | _ => False
-  end.
-Proof. vm_compute. repeat split. Qed.
-Print Assumptions C17_dup_file_rule_refuted.
 
 (* the master switch "removes all" - with LocalRun it used to remove the server; repaired *)
 Theorem C17_master_off_local_repaired :
   client_wf w_master_off = true
-  /\ session false re_all None w_master_off true [] = Fault NilDeref
-  /\ is_ok (session true re_all None w_master_off true []) = true
-  /\ is_ok (session false re_all None w_master_off false []) = true.
+  /\ session code_original re_all None w_master_off true [] = Fault NilDeref
+  /\ is_ok (session deployed re_all None w_master_off true []) = true
+  /\ is_ok (session code_original re_all None w_master_off false []) = true.
 Proof. vm_compute. repeat split. Qed.
 Print Assumptions C17_master_off_local_repaired.
 
-(* ---- non-vacuity: a configuration with switches off, a silenced folder and an ignored file meets the guard of
-   C17_filter_law on diagnostics of six kinds, and the law then hides three of them and shows three ---- *)
-Example C17_guard_inhabited :
-  match session false re_all None w_example false [] with
+(* switches 2, 3, 10, 11, 12 off and 9 on: a type-9 diagnostic, not excluded by the intent, was not shown (the
+   cross-file passes did not run); now it is *)
+Theorem C17_special_gate_repaired :
+  match session code_round1 re_all None w_gate false [], session deployed re_all None w_gate false [] with
+  | Ok s, Ok s' =>
+      client_wf w_gate = true /\ nth 9 (c_flags w_gate) false = true
+      /\ spec_excluded re_all re_none (session_intent None w_gate []) [] (mk_diag a_lua 9) = false
+      /\ visible code_round1 re_all re_none (s_g s) [] (mk_diag a_lua 9) = false
+      /\ cls_special_gate code_round1 re_all re_none (s_g s) (session_intent None w_gate []) [] (mk_diag a_lua 9) = true
+      /\ visible deployed re_all re_none (s_g s') [] (mk_diag a_lua 9) = true
+  | _, _ => False
+  end.
+Proof. vm_compute. repeat split. Qed.
+Print Assumptions C17_special_gate_repaired.
+
+(* only switch 4 off: the type-17 diagnostic disappeared as well; only switch 2 off, or the IMPORTED file b.lua under an
+   ignore-errors rule: the type-11 diagnostic of a.lua disappeared; all three are shown now *)
+Theorem C17_coupled_type_repaired :
+  match session code_round1 re_all None w_coupled false [], session deployed re_all None w_coupled false [],
+        session code_round1 re_all None w_coupled_ref false [], session deployed re_all None w_coupled_ref false [],
+        session code_round1 re_all None w_coupled_ref_file false [], session deployed re_all None w_coupled_ref_file false []
+  with
+  | Ok s, Ok s', Ok r, Ok r', Ok f, Ok f' =>
+      nth 17 (c_flags w_coupled) false = true
+      /\ spec_excluded re_all re_none (session_intent None w_coupled []) [] (mk_diag a_lua 17) = false
+      /\ visible code_round1 re_all re_none (s_g s) [] (mk_diag a_lua 17) = false
+      /\ cls_coupled code_round1 re_all re_none (s_g s) (session_intent None w_coupled []) [] (mk_diag a_lua 17) = true
+      /\ visible deployed re_all re_none (s_g s') [] (mk_diag a_lua 17) = true
+      /\ spec_excluded re_all re_none (session_intent None w_coupled_ref []) [] mk_ref_diag = false
+      /\ visible code_round1 re_all re_none (s_g r) [] mk_ref_diag = false
+      /\ visible deployed re_all re_none (s_g r') [] mk_ref_diag = true
+      /\ spec_excluded re_all re_none (session_intent None w_coupled_ref_file []) [] mk_ref_diag = false
+      /\ visible code_round1 re_all re_none (s_g f) [] mk_ref_diag = false
+      /\ visible deployed re_all re_none (s_g f') [] mk_ref_diag = true
+  | _, _, _, _, _, _ => False
+  end.
+Proof. vm_compute. repeat split. Qed.
+Print Assumptions C17_coupled_type_repaired.
+
+(* every client switch on: a type-22 diagnostic was still not shown (white list only fed by luahelper.json); now the
+   switch opens its type - and switching it off hides the type again *)
+Theorem C17_dead_flag_repaired :
+  match session code_round1 re_all None w_all_on false [], session deployed re_all None w_all_on false [],
+        session deployed re_all None (mk_client [22] [] []) false [] with
+  | Ok s, Ok s', Ok t =>
+      nth 22 (c_flags w_all_on) false = true
+      /\ spec_excluded re_all re_none (session_intent None w_all_on []) [] (mk_diag a_lua 22) = false
+      /\ visible code_round1 re_all re_none (s_g s) [] (mk_diag a_lua 22) = false
+      /\ cls_dead_flag re_all re_none (s_g s) (session_intent None w_all_on []) [] (mk_diag a_lua 22) = true
+      /\ visible deployed re_all re_none (s_g s') [] (mk_diag a_lua 22) = true
+      /\ visible deployed re_all re_none (s_g t) [] (mk_diag a_lua 22) = false
+      /\ visible deployed re_all re_none (s_g t) [] (mk_diag a_lua 23) = true
+  | _, _, _ => False
+  end.
+Proof. vm_compute. repeat split. Qed.
+Print Assumptions C17_dead_flag_repaired.
+
+(* two IgnoreFileErrTypes entries for the same file: the first one was lost, its type was shown; now both hold *)
+Theorem C17_dup_file_rule_repaired :
+  match session code_round1 re_all (Some w_dup_rule) w_all_on false [],
+        session deployed re_all (Some w_dup_rule) w_all_on false [] with
+  | Ok s, Ok s' =>
+      json_wf code_round1 (Some w_dup_rule) = false
+      /\ spec_excluded re_all re_none (session_intent (Some w_dup_rule) w_all_on []) [] (mk_diag a_lua 4) = true
+      /\ visible code_round1 re_all re_none (s_g s) [] (mk_diag a_lua 4) = true
+      /\ visible deployed re_all re_none (s_g s') [] (mk_diag a_lua 4) = false
+      /\ visible deployed re_all re_none (s_g s') [] (mk_diag a_lua 5) = false
+      /\ visible deployed re_all re_none (s_g s') [] (mk_diag a_lua 6) = true
+  | _, _ => False
+  end.
+Proof. vm_compute. repeat split. Qed.
+Print Assumptions C17_dup_file_rule_repaired.
+
+(* hence the full statement was false for the code before the four repairs (witness: the five-flag gate) *)
+Theorem C17_full_refuted_before : ~ C17_full_for code_round1.
+Proof. exact full_round1_refuted. Qed.
+Print Assumptions C17_full_refuted_before.
+
+(* ---- non-vacuity ---- *)
+
+(* the deployed code on a configuration with switches off, a silenced folder and an ignored file: the law hides three of
+   six diagnostics and shows three; the guard of the every-variant theorem C17_filter_law_guarded is met as well *)
+Example C17_law_inhabited :
+  match session deployed re_all None w_example false [] with
   | Ok s =>
       client_wf w_example = true
-      /\ forallb (diag_guard re_all re_none (s_g s) (session_intent None w_example []) []) w_example_diags = true
-      /\ map (visible re_all re_none (s_g s) []) w_example_diags = [true; true; false; false; false; true]
+      /\ forallb type_ok w_example_diags = true
+      /\ map (visible deployed re_all re_none (s_g s) []) w_example_diags = [true; true; false; false; false; true]
+      /\ map (fun d => negb (spec_excluded re_all re_none (session_intent None w_example []) [] d)) w_example_diags
+         = [true; true; false; false; false; true]
       /\ is_handled re_all re_none (s_g s) x_lua = false /\ is_handled re_all re_none (s_g s) a_lua = true
-      /\ special_gate_ok (s_g s) = true
+  | _ => False
+  end.
+Proof. vm_compute. repeat split. Qed.
+
+Example C17_guard_inhabited :
+  match session code_round1 re_all None w_example false [] with
+  | Ok s =>
+      client_wf w_example = true
+      /\ forallb (diag_guard code_round1 re_all re_none (s_g s) (session_intent None w_example []) []) w_example_diags = true
+      /\ map (visible code_round1 re_all re_none (s_g s) []) w_example_diags = [true; true; false; false; false; true]
+      /\ is_handled re_all re_none (s_g s) x_lua = false /\ is_handled re_all re_none (s_g s) a_lua = true
+      /\ special_gate_ok code_round1 (s_g s) = true
   | _ => False
   end.
 Proof. vm_compute. repeat split. Qed.
